@@ -118,6 +118,17 @@ def progress_blocks(prog, fn, cfg, scc):
         root = iterator_root(mir, t['args'][0])
         if root is None:
             continue
+        if re.search(r'iter::Peekable::<I>::next_if(_eq)?$', name) and (root not in hard_assigned or root <= mir['argc']):
+            # conditional consumption: progress for the cycle only if the cycle is left when nothing was taken (the None edge of the test that
+            # follows the call leads out of the cycle)
+            d = t['dest']['l']
+            nb = mir['blocks'][t['t']] if t.get('t') is not None and t['t'] >= 0 else None
+            if nb is not None and nb['term']['k'] == 'switch' and any(s_['k'] == 'assign' and s_['rv']['k'] == 'discr' and s_['rv']['p']['l'] == d for s_ in nb['stmts']):
+                tm = dict((int(x), b_) for x, b_ in nb['term']['t'])
+                none_t = tm.get(0, nb['term']['else'])
+                if none_t not in scc:
+                    out.add(bi)
+            continue
         if PROGRESS_RE.search(name):
             aty = ((t['args'][0].get('move') or t['args'][0].get('copy') or {}).get('ty') or '') + ' ' + name + ' ' + t.get('ga', '')
             if INFINITE_RE.search(aty):
